@@ -158,7 +158,7 @@ def _joined_tuples(out, prefix):
 _RE_REJECT = re.compile(r'^<<"REJECT", (?:"([^"]*)"|(-?\d+)), "([^"]*)"(?:, (.*))?>>$')
 
 
-def validate_traces(ctx, module, records, *, batch=2000, cfg=None, constants=None, timeout=1800, key="id", deque=False, xmx="3g",
+def validate_traces(ctx, module, records, *, batch=2000, cfg=None, constants=None, timeout=5400, key="id", deque=False, xmx="3g",
                     parallel=NCPU):
     """Code -> spec.  `records` is a list of JSON-able dicts with a unique `id`.  Each batch is written as ndjson and checked by
     the T-layer module `module` (SPECIFICATION TSpec, POSTCONDITION Accepted).  The T-layer prints <<"REJECT", id, clause>> and
